@@ -11,7 +11,7 @@ cd "$TMP/repo"; patch -p1 -s < "$PATCH" || { echo "patch does not apply"; exit 2
 go build ./cmd/... ./internal/... ./config/... 2>"$TMP/b.out" || { echo "does not build"; head -3 "$TMP/b.out"; exit 2; }
 fired=""
 for id in $IDS; do
-  "$HERE/bin/authcheck" "$id" -repo "$TMP/repo" -verif "$TMP/verif" > "$TMP/$id.out" 2>&1
+  "${AUTHCHECK:-$HERE/bin/authcheck}" "$id" -repo "$TMP/repo" -verif "$TMP/verif" > "$TMP/$id.out" 2>&1
   if grep -q '^VIOLATION' "$TMP/$id.out"; then fired="$fired $id"; grep 'violated' "$TMP/$id.out" | head -2 | cut -c1-260 | sed "s/^/   [$id]/"; fi
 done
 echo "FIRED:${fired:- none}"
